@@ -40,7 +40,7 @@ def bounds(tier):
     if tier == "quick":
         return ("single env: 8 combinations of 4 graph builders x observer configurations A-D x {default, no-filter/idle-reward/no-machine-removal/"
                 "no-padding} on ordered shapes <=3 jobs <=3 ops, all assignments M<=2 up to renaming (+ M=3 on 3 ops), flexible M<=2 on <=2 ops, "
-                "every decision sequence, and for three builder/configuration pairs a second episode after an earlier one of every length; multi env: 8 generator configurations (jobs, machines in {1,2,(1,2)}, recirculation off/on, 2 builders, "
+                "every decision sequence, and for three builder/configuration pairs a second episode after an earlier one of every length; multi env: 14 generator configurations (jobs, machines in {1,2,(1,2)}, also fewer jobs than machines: 1 job x 2 or 3 machines; recirculation off/on, "
                 "2-4 builders, 2 observer configurations, both variants), 2 episodes, every RNG outcome, one decision sequence per episode")
     return "quick + every observer type x every supported feature-type subset (single env, (2,1) and (1,1,1)), 4 ops, multi env 3 episodes and (2,3)-machine ranges"
 
@@ -85,11 +85,13 @@ def subspaces(tier):
                 if max(m[0] for m in sp["machines"]) == 2]
     multi = [(2, 2, False, "at", "A", 0, 2), ([1, 2], 2, False, "disj", "B", 0, 2), (2, [1, 2], False, "at", "B", 1, 2),
              ([1, 2], [1, 2], False, "at", "A", 0, 2), (1, 2, True, "disj", "A", 1, 2), (2, 2, True, "at", "A", 0, 1),
-             (1, 2, True, "at", "B", 0, 2), (2, 1, False, "disj", "A", 0, 2), (1, 2, True, "atj", "A", 0, 2), (1, 2, True, "cat", "A", 0, 2)]
+             (1, 2, True, "at", "B", 0, 2), (2, 1, False, "disj", "A", 0, 2), (1, 2, True, "atj", "A", 0, 2), (1, 2, True, "cat", "A", 0, 2),
+             # fewer jobs than machines (allowed by default), without recirculation
+             (1, 2, False, "at", "A", 0, 2), (1, 2, False, "disj", "B", 0, 1), (1, 3, False, "at", "A", 0, 1), (1, 3, False, "atj", "A", 0, 1)]
     if tier == "thorough":
         multi += [(nj, nm, r, b, c, v, 2) for nj in (1, 2, [1, 2]) for nm in (1, 2, [1, 2]) for r in (False, True) for b in BUILDERS
                   for c in ("A", "B") for v in (0, 1) if not (r and (nj != 1))]
-        multi += [(2, 2, True, b, "A", 0, 1) for b in BUILDERS] + [([1, 2], [1, 2], False, "at", "A", 0, 3)]
+        multi += [(2, 2, True, b, "A", 0, 1) for b in BUILDERS] + [([1, 2], [1, 2], False, "at", "A", 0, 3), ([1, 2], 3, False, "atj", "A", 0, 1)]
     for nj, nm, recirc, b, cfg, v, ep in multi:
         out.append(dict(mode="multi", shape=[1], machines=[[0]], num_jobs=nj, num_machines=nm, recirc=recirc,
                         builder=b, cfg=cfg, episodes=ep, **VARIANTS[v]))
